@@ -333,6 +333,98 @@ pub fn minimise(case: &Case, signature: &str, budget: usize, scratch: &Path) -> 
     (best, used)
 }
 
+/// Cross-check of the shim (thorough): the same fault injected by the kernel-side `strace -e inject=` instead
+/// of LD_PRELOAD must lead to the same verdict. Returns (plans compared, disagreements, details).
+pub fn strace_cross_check(seed: u64, want: usize) -> (usize, usize, Vec<String>) {
+    let scratch = world_f::scratch_root().join("strace");
+    let _ = std::fs::create_dir_all(&scratch);
+    let mut compared = 0;
+    let mut disagreements = 0;
+    let mut details = vec![];
+    let mut i = 0u64;
+    while compared < want && i < 400 {
+        i += 1;
+        let s = runner::run_seed(seed ^ 0x57ACE, i);
+        let tree = world_f::generate(s, false);
+        let expected = match world_f::expected(&tree) {
+            Some(e) if e.collisions.is_empty() => e,
+            _ => continue,
+        };
+        let free = Case { tree: tree.clone(), plan: Plan { label: "fault-free".into(), text: String::new(), must_succeed: true }, entropy: 1, readdir: 0, threads: 1 };
+        let (_, res) = match exec_case(&free, &scratch, &expected) {
+            Ok(x) => x,
+            Err(_) => continue,
+        };
+        // one simple plan per tree: error or kill at the first write / open / rename of one written file
+        let mut r = Rng::stream(s, "strace");
+        let writes: Vec<&TraceOp> = res.trace.iter().filter(|t| t.op == "write").collect();
+        if writes.is_empty() {
+            continue;
+        }
+        let t = *r.pick(&writes);
+        if t.path.contains(' ') || !t.path.is_ascii() {
+            continue;
+        }
+        let (label, rule, inject) = match r.below(4) {
+            0 => ("write/partial-ENOSPC/0", format!("write {} 1 partial 0 28\n", t.path), "write:error=ENOSPC:when=1".to_string()),
+            1 => ("write/kill", format!("write {} 1 kill\n", t.path), "write:signal=KILL:when=1".to_string()),
+            2 => ("openw/err-EACCES", format!("openw {} 1 err 13\n", t.path), "openat:error=EACCES:when=1".to_string()),
+            _ => ("write/partial-EIO/0", format!("write {} 1 partial 0 5\n", t.path), "write:error=EIO:when=1".to_string()),
+        };
+        let case = Case { tree: tree.clone(), plan: Plan { label: label.into(), text: rule, must_succeed: false }, entropy: 1, readdir: 0, threads: 1 };
+        let (v_shim, _) = match exec_case(&case, &scratch, &expected) {
+            Ok(x) => x,
+            Err(_) => continue,
+        };
+        // kernel-side injection
+        let root = scratch.join("root");
+        let _ = std::fs::remove_dir_all(&root);
+        if world_f::materialise(&tree, &root).is_err() {
+            continue;
+        }
+        let before = world_f::snapshot(&root);
+        let target = root.join(&t.path);
+        let out = std::process::Command::new("strace")
+            .arg("-f")
+            .arg("-o")
+            .arg("/dev/null")
+            .arg("-e")
+            .arg("trace=write,openat")
+            .arg("-e")
+            .arg(format!("inject={}", inject))
+            .arg("-P")
+            .arg(&target)
+            .arg(iwe_bin())
+            .arg("normalize")
+            .current_dir(&root)
+            .env("RAYON_NUM_THREADS", "1")
+            .env_remove("LD_PRELOAD")
+            .output();
+        let out = match out {
+            Ok(o) => o,
+            Err(e) => {
+                details.push(format!("strace could not run: {}", e));
+                break;
+            }
+        };
+        let after = world_f::snapshot(&root);
+        let code = out.status.code().unwrap_or(137);
+        let killed = out.status.code().is_none() || code == 137;
+        let j = Judge { tree: &tree, before: &before, after: &after, expected: &expected, fault: label, must_succeed: false, exit_code: code, killed };
+        let v_strace = world_f::judge(&j);
+        let _ = std::fs::remove_dir_all(&root);
+        compared += 1;
+        let a: Vec<&String> = v_shim.iter().map(|x| &x.kind).collect();
+        let b: Vec<&String> = v_strace.iter().map(|x| &x.kind).collect();
+        if a != b {
+            disagreements += 1;
+            details.push(format!("tree seed {} plan {} on {}: shim verdict {:?}, strace verdict {:?} (exit {})", s, label, t.path, a, b, code));
+        }
+    }
+    let _ = std::fs::remove_dir_all(&scratch);
+    (compared, disagreements, details)
+}
+
 pub fn check(tier: &str, started: Instant) -> i32 {
     crate::quiet_panics();
     let seed = runner::env_seed();
@@ -389,6 +481,12 @@ pub fn check(tier: &str, started: Instant) -> i32 {
         println!("  what: {}", violation.get("detail").and_then(|d| d.as_str()).unwrap_or("").chars().take(400).collect::<String>());
     }
     let _ = std::fs::remove_dir_all(&scratch);
+    let (x_compared, x_disagree, x_details) = if tier == "thorough" || std::env::var("VERIF_STRACE").is_ok() { strace_cross_check(seed, 20) } else { (0, 0, vec![]) };
+    if x_disagree > 0 {
+        // the shim and the kernel disagree about what the binary does: nothing this check says can be trusted
+        eprintln!("HARNESS-ERROR: shim/strace cross-check disagrees in {} of {} plans: {:?}", x_disagree, x_compared, x_details);
+        return 2;
+    }
     let exhaustive_note = if tier == "thorough" { "thorough: for every generated tree EVERY operation boundary of the fault-free trace is enumerated (kill before each intercepted open/write/close/rename/fsync/unlink, every errno of the op's class, partial writes and kills after 0/1/mid/len-1 bytes of every write, EINTR, three short-write sizes)" } else { "quick: per tree the fault-free run plus up to 8 plans sampled from the same enumeration, biased to the write phase" };
     let ev = EvidenceIn {
         property: "C19",
@@ -407,6 +505,7 @@ pub fn check(tier: &str, started: Instant) -> i32 {
         violations,
         known_findings: known_seen,
         extra: json!({"failure_signatures": agg.failure_counts, "trees": agg.counters.get("trees"), "exhaustive": false,
+            "strace_cross_check": {"plans_compared": x_compared, "disagreements": x_disagree},
             "explanation": "old-or-new oracle per pre-existing note path, no new .md path, non-note files byte- and mtime-identical, leftovers tolerated only after a kill; legal non-failures must converge to the fault-free result"}),
         started,
     };
